@@ -6,6 +6,7 @@ import (
 	"github.com/cockroachdb/errors"
 	"github.com/cockroachdb/errors/errorspb"
 	"github.com/cockroachdb/redact"
+	"verifh/gen"
 	"verifh/sym"
 	"verifh/wire"
 )
@@ -67,6 +68,30 @@ func H_C03_NoLeak(v *sym.V) {
 	b := build(v, g, "e")
 	e := b.Err
 	tag := b.Kinds[0].String()
+	switch v.Choice("stage", 3) {
+	case 1:
+		e = wire.Hop(e)
+		tag += "/hop"
+	case 2:
+		enc := wire.Copy(wire.Encode(e))
+		wire.Rename(enc, -1, "~unknown")
+		e = wire.Decode(enc)
+		tag += "/unknowing"
+	}
+	piiFreeOutputs(v, tag, e)
+}
+
+// H_C03_MarkerLead: unsafe strings that begin with a redaction marker rune
+// followed by a token byte (the solver picks the marker and the token).
+func H_C03_MarkerLead(v *sym.V) {
+	g := newG(v, sym.REGNN)
+	g.ClsUnsafe = sym.MARKTOK
+	b := g.BuildTiered("e", v.Param("D", 2),
+		[]gen.Kind{gen.LStd, gen.LNewfUnsafe, gen.LUserPlain, gen.LUserFmt, gen.LHandledMsg},
+		[]gen.Kind{gen.WHint, gen.WDetail, gen.WWrapf, gen.WFmtPrefix, gen.WPkgMsg, gen.WTags, gen.WMark},
+		[]gen.Kind{gen.WHint, gen.WDetail, gen.WWrapf, gen.WFmtPrefix, gen.WPkgMsg, gen.WTags, gen.WMark, gen.WSecondary, gen.WPathError})
+	e := b.Err
+	tag := b.Kinds[0].String() + "/markerlead"
 	switch v.Choice("stage", 3) {
 	case 1:
 		e = wire.Hop(e)
